@@ -71,6 +71,8 @@ class Sys:
         self.dyn = {e: cls(R=self.R[e], ukeys=tuple(self.uk)) for e in self.ek}
         self.fb = {u: OpaqueFn(f"fb{u}{tag}", [(self.dp,)], (1,)) for u in self.uk}
         self.fic = {u: OpaqueFn(f"fic{u}{tag}", [(1,)], (1,)) for u in self.uk}
+        # concrete 0-d jax arrays, created outside any trace (weights "given as arrays")
+        self.mark_arr = {nm: [jnp.asarray(base + i) for i in range(8)] for nm, base in self.MARK.items()}
 
     def inputs(self):
         B, dp, nu, ne = self.B, self.dp, self.n_u, self.n_eq
@@ -101,6 +103,11 @@ class Sys:
             d = {k: arr_[i] for i, k in enumerate(keys)}
             if f == "dict_rev":         # same mapping, written in the opposite insertion order
                 d = dict(reversed(list(d.items())))
+            if f == "dict_arrays":      # weights given as 0-d jax arrays (the documented type is Array | Float)
+                nm = {"dyn_loss": "wd", "initial_condition": "wi", "observations": "wo", "boundary_loss": "wb"}[term]
+                d = {k: self.mark_arr[nm][i] for i, k in enumerate(keys)}
+            if f == "dict_zero":        # an explicit null weight switches the first key's term off
+                d[keys[0]] = 0.0
             return d
         kw = {}
         if form.get("dyn_loss") != "default":
@@ -123,6 +130,8 @@ class Sys:
         def rep(leaf):
             if isinstance(leaf, float) and leaf in table:
                 return table[leaf]
+            if isinstance(leaf, (jax.Array, np.ndarray)) and np.shape(leaf) == () and float(leaf) in table:
+                return table[float(leaf)]
             return leaf
         new = jax.tree_util.tree_map(rep, loss._loss_weights)
         return eqx.tree_at(lambda l: l._loss_weights, loss, new)
@@ -131,44 +140,61 @@ class Sys:
         loss, pd, batch = self._build(a, form, ic_on, obs_on, bc_on)
         return self.symbolic_weights(loss, a), pd, batch
 
-    def _build(self, a, form, ic_on, obs_on, bc_on=(), derivative_keys_dict=None):
+    def prepare(self, form, ic_on, obs_on, bc_on=()):
+        """construct the loss object once, outside any trace (as users do); `build` then only substitutes the symbolic
+        weights / initial states into it and assembles the batch"""
+        if not hasattr(self, "_protos"):
+            self._protos = {}
+        ex = {i.name: np.full(tuple(i.shape), 0.5) for i in self.inputs()}
+        key = (tuple(sorted(form.items())), tuple(ic_on), tuple(obs_on), tuple(bc_on))
+        self._protos[key] = self._construct(ex, form, ic_on, obs_on, bc_on, None)
+        return self
+
+    def _construct(self, a, form, ic_on, obs_on, bc_on, derivative_keys_dict):
         pd = self.params_dict(a)
         u_dict = {u: self.nets[u].u for u in self.uk}
         lw = self.weights(a, form)
-        obs = {u: ({"pinn_in": a["oin"][i], "val": a["oval"][i], "eq_params": {}} if u in obs_on else None)
-               for i, u in enumerate(self.uk)}
         if self.kind == "ODE":
             # constructed with concrete data (as users do, outside jit); the symbolic initial state is put in afterwards
             extra = dict(derivative_keys_dict=dict(derivative_keys_dict)) if derivative_keys_dict is not None else {}
-            loss = SystemLossODE(u_dict=u_dict, dynamic_loss_dict=self.dyn, loss_weights=lw, params_dict=pd, **extra,
+            return SystemLossODE(u_dict=u_dict, dynamic_loss_dict=self.dyn, loss_weights=lw, params_dict=pd, **extra,
                                  initial_condition_dict={u: ((0.5, np.zeros((1,))) if u in ic_on else None)
                                                          for i, u in enumerate(self.uk)})
+        fb, fic = self.fb, self.fic
+        kw = dict(u_dict=u_dict, dynamic_loss_dict=self.dyn, loss_weights=lw, params_dict=pd)
+        if derivative_keys_dict is not None:
+            kw["derivative_keys_dict"] = dict(derivative_keys_dict)
+        if bc_on:
+            kw["omega_boundary_condition_dict"] = {u: ("dirichlet" if u in bc_on else None) for u in self.uk}
+            if self.kind == "statio":
+                kw["omega_boundary_fun_dict"] = {u: ((lambda x, u=u: fb[u](x)) if u in bc_on else None) for u in self.uk}
+            else:
+                kw["omega_boundary_fun_dict"] = {u: ((lambda t, x, u=u: fb[u](jnp.concatenate([t, x]))) if u in bc_on else None)
+                                                 for u in self.uk}
+        if self.kind == "nonstatio" and ic_on:
+            kw["initial_condition_fun_dict"] = {u: ((lambda x, u=u: fic[u](x)) if u in ic_on else None) for u in self.uk}
+        return SystemLossPDE(**kw)
+
+    def _build(self, a, form, ic_on, obs_on, bc_on=(), derivative_keys_dict=None):
+        pd = self.params_dict(a)
+        key = (tuple(sorted(form.items())), tuple(ic_on), tuple(obs_on), tuple(bc_on))
+        loss = getattr(self, "_protos", {}).get(key) if derivative_keys_dict is None else None
+        if loss is None:
+            loss = self._construct(a, form, ic_on, obs_on, bc_on, derivative_keys_dict)
+        obs = {u: ({"pinn_in": a["oin"][i], "val": a["oval"][i], "eq_params": {}} if u in obs_on else None)
+               for i, u in enumerate(self.uk)}
+        if self.kind == "ODE":
             on = [(i, u) for i, u in enumerate(self.uk) if u in ic_on]
             if on:
                 loss = eqx.tree_at(lambda l: [l.u_constraints_dict[u].initial_condition for _, u in on], loss,
                                    [(a["t0"], a["u0"][i]) for i, _ in on])
             batch = ODEBatch(temporal_batch=a["pts"], obs_batch_dict=obs if obs_on else None)
+        elif self.kind == "statio":
+            batch = PDEStatioBatch(inside_batch=a["pts"], border_batch=a["bb"] if bc_on else None,
+                                   obs_batch_dict=obs if obs_on else None)
         else:
-            fb, fic = self.fb, self.fic
-            kw = dict(u_dict=u_dict, dynamic_loss_dict=self.dyn, loss_weights=lw, params_dict=pd)
-            if derivative_keys_dict is not None:
-                kw["derivative_keys_dict"] = dict(derivative_keys_dict)
-            if bc_on:
-                kw["omega_boundary_condition_dict"] = {u: ("dirichlet" if u in bc_on else None) for u in self.uk}
-                if self.kind == "statio":
-                    kw["omega_boundary_fun_dict"] = {u: ((lambda x, u=u: fb[u](x)) if u in bc_on else None) for u in self.uk}
-                else:
-                    kw["omega_boundary_fun_dict"] = {u: ((lambda t, x, u=u: fb[u](jnp.concatenate([t, x]))) if u in bc_on else None)
-                                                     for u in self.uk}
-            if self.kind == "nonstatio" and ic_on:
-                kw["initial_condition_fun_dict"] = {u: ((lambda x, u=u: fic[u](x)) if u in ic_on else None) for u in self.uk}
-            loss = SystemLossPDE(**kw)
-            if self.kind == "statio":
-                batch = PDEStatioBatch(inside_batch=a["pts"], border_batch=a["bb"] if bc_on else None,
-                                       obs_batch_dict=obs if obs_on else None)
-            else:
-                batch = PDENonStatioBatch(times_x_inside_batch=a["pts"], times_x_border_batch=a["bb"] if bc_on else None,
-                                          obs_batch_dict=obs if obs_on else None)
+            batch = PDENonStatioBatch(times_x_inside_batch=a["pts"], times_x_border_batch=a["bb"] if bc_on else None,
+                                      obs_batch_dict=obs if obs_on else None)
         return loss, pd, batch
 
     def term_keys(self):
@@ -184,6 +210,8 @@ class Sys:
                 return P.ZERO
             if f == "default":
                 return c(1) if self.kind != "ODE" else P.ZERO
+            if f == "dict_zero" and i == 0:
+                return P.ZERO
             return arr_[0] if f == "scalar" else arr_[i]
         out = {t: P.ZERO for t in self.term_keys()}
         # dynamic part
@@ -234,7 +262,7 @@ def system_ob(kind, n_eq, n_u, form, ic_on, obs_on, bc_on=(), k=1, tag=""):
     name = (f"C13/System{'LossODE' if kind == 'ODE' else 'LossPDE'}.evaluate/ensures[{kind},eqs={n_eq},unknowns={n_u},k={k},"
             f"weights={fdesc},ic={'+'.join(ic_on) or '-'},obs={'+'.join(obs_on) or '-'},bc={'+'.join(bc_on) or '-'}]{tag}")
     def build():
-        S = Sys(kind, n_eq, n_u, k=k)
+        S = Sys(kind, n_eq, n_u, k=k).prepare(form, ic_on, obs_on, bc_on)
         names = S.names()
         keys = S.term_keys()
         def fn(*args):
@@ -263,7 +291,7 @@ def one_one_equals_plain(kind):
     """a one-equation one-unknown system equals the plain loss on the same data"""
     from contracts.lossutil import OpODE, OpNonStatio
     def build():
-        S = Sys(kind, 1, 1)
+        S = Sys(kind, 1, 1).prepare({}, ("u",), ("u",), ())
         names = S.names()
         R = S.R["e1"]
         class PlainODE(ODE):
@@ -397,6 +425,12 @@ def obligations(tier):
                                           "boundary_loss": "dict_rev"}, allu(2) if kind != "statio" else (), allu(2),
                              bc_on=allu(2) if kind != "ODE" else ()))
         obs.append(system_ob(kind, 2, 2, {"observations": "none"}, allu(2) if kind != "statio" else (), ("v",)))
+        obs.append(system_ob(kind, 2, 2, {"dyn_loss": "dict_arrays", "initial_condition": "dict_arrays", "observations": "dict_arrays",
+                                          "boundary_loss": "dict_arrays"}, allu(2) if kind != "statio" else (), allu(2),
+                             bc_on=allu(2) if kind != "ODE" else ()))
+        obs.append(system_ob(kind, 2, 2, {"dyn_loss": "dict_zero", "initial_condition": "dict_zero", "observations": "dict_zero",
+                                          "boundary_loss": "dict_zero"}, allu(2) if kind != "statio" else (), allu(2),
+                             bc_on=allu(2) if kind != "ODE" else ()))
         obs.append(system_ob(kind, 2, 2, {"dyn_loss": "none"}, ("u",) if kind != "statio" else (), ("u",)))
         obs.append(system_ob(kind, 3, 2, {"dyn_loss": "none"}, ("u",) if kind != "statio" else (), ("u",)))
         obs.append(system_ob(kind, 2, 2, {"dyn_loss": "default", "initial_condition": "default", "observations": "default",
